@@ -40,9 +40,15 @@ impl AtomicCounter {
     /// the last flush.
     pub fn flush(&self) -> (u64, u64) {
         let current = self.current.load(Acquire);
+        #[cfg(metrics_verif)]
+        metrics::verif::point("dsd.counter.flush.after_current_load", 0);
         let last = self.last.swap(current, AcqRel);
+        #[cfg(metrics_verif)]
+        metrics::verif::point("dsd.counter.flush.after_last_swap", 0);
         let delta = current.wrapping_sub(last);
         let updates = self.updates.swap(0, AcqRel);
+        #[cfg(metrics_verif)]
+        metrics::verif::point("dsd.counter.flush.after_updates_swap", 0);
 
         (delta, updates)
     }
@@ -51,7 +57,11 @@ impl AtomicCounter {
 impl CounterFn for AtomicCounter {
     fn increment(&self, value: u64) {
         self.is_absolute.store(false, Release);
+        #[cfg(metrics_verif)]
+        metrics::verif::point("dsd.counter.inc.after_mode_store", 0);
         self.current.fetch_add(value, Relaxed);
+        #[cfg(metrics_verif)]
+        metrics::verif::point("dsd.counter.inc.after_current_add", 0);
         self.updates.fetch_add(1, Relaxed);
     }
 
@@ -61,10 +71,16 @@ impl CounterFn for AtomicCounter {
         // two consecutive absolute values, since otherwise we might be calculating a delta between a `last` of 0 and a
         // very large `current` value.
         if !self.is_absolute.swap(true, Release) {
+            #[cfg(metrics_verif)]
+            metrics::verif::point("dsd.counter.abs.after_mode_swap", 0);
             self.last.store(value, Release);
+            #[cfg(metrics_verif)]
+            metrics::verif::point("dsd.counter.abs.after_last_store", 0);
         }
 
         self.current.store(value, Release);
+        #[cfg(metrics_verif)]
+        metrics::verif::point("dsd.counter.abs.after_current_store", 0);
         self.updates.fetch_add(1, Relaxed);
     }
 }
@@ -83,6 +99,8 @@ impl AtomicGauge {
     /// Flushes the current gauge value and the number of updates since the last flush.
     pub fn flush(&self) -> (f64, u64) {
         let current = f64::from_bits(self.inner.load(Acquire));
+        #[cfg(metrics_verif)]
+        metrics::verif::point("dsd.gauge.flush.after_value_load", 0);
         let updates = self.updates.swap(0, AcqRel);
 
         (current, updates)
@@ -112,6 +130,8 @@ impl GaugeFn for AtomicGauge {
 
     fn set(&self, value: f64) {
         self.inner.store(value.to_bits(), Release);
+        #[cfg(metrics_verif)]
+        metrics::verif::point("dsd.gauge.set.after_value_store", 0);
         self.updates.fetch_add(1, Relaxed);
     }
 }
